@@ -335,6 +335,11 @@ func (r *Report) finish() int {
 				ev["known_finding"] = true
 				continue
 			}
+			if sr.Status == "vacuous" {
+				lines = append(lines, fmt.Sprintf("BROKEN: %s was proved vacuously: %s", sr.Name, sr.Detail))
+				exit = 2
+				continue
+			}
 			if sr.Status == "solver-disagreement" {
 				lines = append(lines, fmt.Sprintf("BROKEN: the solvers disagree on %s (%s): nothing is concluded from it", sr.Name, sr.Detail))
 				exit = 2
